@@ -107,7 +107,13 @@ type cfg struct {
 	RH      []int // per height
 	H       int   // last height run (0 or 1)
 	total   uint
-	q, f    uint // harness' own thresholds: q = min{q: 3q>=2N}, f = max{f: 3f<N}
+	q, f    uint // harness' own thresholds: q = min{q: 3q>=2N}, f = max{f: 3f<N} (of height 0)
+	// The validator set is a function of the height: powersH[h][i] = voting power of validator i at height h
+	// (h = 0, 1; single-height configurations and unchanged sets have powersH[1] == powersH[0]); totalH / qH / fH
+	// are the total and the harness' own thresholds of that height. Everything that weighs a message (the
+	// Validators given to the real machines, the lock-rule monitor) uses the power of the MESSAGE's own height.
+	powersH        [2][]uint
+	totalH, qH, fH [2]uint
 	correct []int
 	slot    []int // validator index -> correct slot or -1
 	zVal    vid   // the invalid value
@@ -130,19 +136,42 @@ func newCfg(name string, powers []uint, byz, R int) *cfg { return newCfgH(name, 
 
 // newCfgH: RH[h] = highest round processed at height h; len(RH) heights are run (1 or 2).
 func newCfgH(name string, powers []uint, byz int, RH []int) *cfg {
+	return newCfgHP(name, powers, powers, byz, RH)
+}
+
+// thresholdsOf: the harness' own thresholds from their definitions: q = min{q: 3q >= 2N}, f = max{f: 3f < N}.
+func thresholdsOf(powers []uint) (total, q, f uint) {
+	for _, p := range powers {
+		total += p
+	}
+	for q = 0; 3*q < 2*total; q++ {
+	}
+	for f = 0; 3*(f+1) < total; f++ {
+	}
+	return
+}
+
+// newCfgHP: powers = voting power at height 0, powers1 = voting power at height 1 (the validator set is re-weighted at
+// the height boundary). The Byzantine validator must hold <= f (i.e. less than one third) at EVERY height: that is
+// the property's assumption, so the generator of configurations is restricted, not the oracle.
+func newCfgHP(name string, powers, powers1 []uint, byz int, RH []int) *cfg {
 	c := &cfg{name: name, n: len(powers), powers: powers, byz: byz, R: RH[0], RH: RH, H: len(RH) - 1, logger: log.NewNopZapLogger()}
+	if len(powers1) != len(powers) {
+		panic("power vectors of different length")
+	}
+	c.powersH = [2][]uint{powers, powers1}
+	for h := 0; h < 2; h++ {
+		c.totalH[h], c.qH[h], c.fH[h] = thresholdsOf(c.powersH[h])
+		if c.powersH[h][byz] > c.fH[h] {
+			panic(fmt.Sprintf("byzantine power exceeds f at height %d", h))
+		}
+	}
 	for _, x := range RH {
 		if x >= hStride-1 || len(RH) > 2 {
 			panic("round/height bound exceeds the encoding")
 		}
 	}
-	for _, p := range powers {
-		c.total += p
-	}
-	for c.q = 0; 3*c.q < 2*c.total; c.q++ {
-	}
-	for c.f = 0; 3*(c.f+1) < c.total; c.f++ {
-	}
+	c.total, c.q, c.f = c.totalH[0], c.qH[0], c.fH[0]
 	c.slot = make([]int, c.n)
 	c.idOf = map[starknet.Value]vid{}
 	c.addrIdx = map[starknet.Address]int{}
@@ -161,9 +190,6 @@ func newCfgH(name string, powers []uint, byz int, RH []int) *cfg {
 		v := felt.FromUint64[starknet.Value](uint64(100 + i))
 		c.valOf = append(c.valOf, v)
 		c.idOf[v] = vid(i)
-	}
-	if c.powers[byz] > c.f {
-		panic("byzantine power exceeds f")
 	}
 	c.canon = make([]map[[16]byte]*node, len(c.correct))
 	c.cmu = make([]sync.Mutex, len(c.correct))
@@ -194,10 +220,15 @@ func (a *app) Valid(v starknet.Value) bool { return v != a.z }
 
 type vals struct{ c *cfg }
 
-func (v vals) TotalVotingPower(types.Height) types.VotingPower { return types.VotingPower(v.c.total) }
-func (v vals) ValidatorVotingPower(_ types.Height, a *starknet.Address) types.VotingPower {
+// hIdx: heights above the last one modelled keep the last validator set.
+func hIdx(h types.Height) int { return int(min(h, 1)) }
+
+func (v vals) TotalVotingPower(h types.Height) types.VotingPower {
+	return types.VotingPower(v.c.totalH[hIdx(h)])
+}
+func (v vals) ValidatorVotingPower(h types.Height, a *starknet.Address) types.VotingPower {
 	if i, ok := v.c.addrIdx[*a]; ok {
-		return types.VotingPower(v.c.powers[i])
+		return types.VotingPower(v.c.powersH[hIdx(h)][i])
 	}
 	return 0
 }
